@@ -343,6 +343,7 @@ func runC10(c *kit.Ctx) {
 	c10TagRules(c, m)
 	c10R5(c, m)
 	c10R6(c, m)
+	c10R8(c, m)
 }
 
 // ---- R1 --------------------------------------------------------------------
